@@ -2,9 +2,15 @@ CONSTANTS
   Dev_AdoptClientSecurity = FALSE
   Dev_IgnoreSigFailure = FALSE
   Dev_TokenKeyLimits = FALSE
+  Dev_StatusSkipsVerify = FALSE
+  Dev_CloseOnce = FALSE
+  Dev_RecycledConfig = FALSE
   Dev_AdvertiseExtra = FALSE
   Dev_DropPolicy = ""
   Dev_WrongTokenPolicy = FALSE
+  SresSet = {"good", "goodsub", "uncertain", "bad"}
+  MaxAttempts = 1
+  Histories = {"none", "secured"}
   ConfigSet = "quick"
   Scripted = TRUE
   Intents = {"endpoint", "raw"}
@@ -18,6 +24,9 @@ INVARIANT InvTokens
 INVARIANT InvProvenIdentity
 INVARIANT InvNoPanic
 INVARIANT InvBadSigOutcome
+INVARIANT InvNoSessionUnverified
+INVARIANT InvBadStatusOutcome
+INVARIANT InvCleanAfterFailure
 INVARIANT InvInterop
 INVARIANT InvTerminalDef
 CHECK_DEADLOCK FALSE
